@@ -143,6 +143,9 @@ def run(tier: str, seed: int) -> int:
                     res.spec_failures.append({"kind": kind, "kconfig": kconfig, "what": "a configuration that must be rejected was accepted"})
                 continue
             if "ok" not in impl:
+                if model.get("err") == "GeneratorError:fit" and impl.get("err") == "GeneratorError":
+                    res.count("kconfig:envelope-larger-than-its-slot")      # legitimately refused: the generated envelope does not fit the role's slot
+                    continue
                 res.spec_failures.append({"kind": kind, "kconfig": kconfig, "impl": impl, "what": "a valid configuration / envelope was rejected"})
                 continue
             # the envelope must sit in exactly the configured role's slot
